@@ -13,6 +13,7 @@ Everything below the proof is differential testing; it validates the model, it d
 import json
 import os
 import random
+import re
 import time
 
 from .. import core
@@ -1106,6 +1107,20 @@ def bigprefix_job(exe, nbw, prefix_mib, ldm):
                 ok=(rc == 0 and "equal=1" in out))
 
 
+def fuzz_job(exe, freq, seed, nscen, warp, first=0, nframes=25, timeout=1500):
+    """R3: the reuse fuzzer harness/c15_explore.c (direct oracles only: round trip, reused == fresh)."""
+    t0 = time.time()
+    args = [str(seed), str(nscen), str(warp), "1", str(nframes), str(first)]
+    rc, out, err = core.sh([exe] + args, timeout=timeout)
+    lines = out.split("\n")
+    fails = []
+    for i, l in enumerate(lines):
+        if l.startswith("FAIL"):
+            fails.append((l[:300], lines[i + 1][:600] if i + 1 < len(lines) else ""))
+    done = any(l.startswith("DONE") for l in lines)
+    return dict(freq=freq, seed=seed, nscen=nscen, warp=warp, first=first, nframes=nframes, rc=rc, err=err[-300:], fails=fails, done=done, wall=time.time() - t0)
+
+
 def tie_job(name, freq, lines, cexe, mexe):
     mism = diff_runs(None, name, freq, lines, cexe, mexe, timeout=900)
     return dict(name=name, freq=freq, lines=lines, mism=mism)
@@ -1122,6 +1137,8 @@ def run(ctx):
             1: core.build_harness("c15_window", ["c15_window.c"], variant="ovf", extra_flags=["-w"])}
     xexe = {0: core.build_harness("c15_ctx", ["c15_ctx.c"], variant="o1", extra_flags=["-w"]),
             1: core.build_harness("c15_ctx", ["c15_ctx.c"], variant="ovf", extra_flags=["-w"])}
+    fexe = {0: core.build_harness("c15_explore", ["c15_explore.c"], variant="o1", extra_flags=["-w"]),
+            1: core.build_harness("c15_explore", ["c15_explore.c"], variant="ovf", extra_flags=["-w"])}
     scale = 1 if ctx.quick else 6
     arena_mb = 48 if ctx.quick else 128
 
@@ -1175,6 +1192,11 @@ def run(ctx):
             extra = ["resetparams", "param %d 1" % P_LEVEL, "param %d %d" % (P_WLOG, wl), "nodict",
                      "bigstream %d %d" % (4608 << 20, rng.randint(1, 1 << 30)), "oneshot 7 5000", "oneshot 100 100000"]
             futs.append(("ctx", pool.submit(ctx_job, xexe[0], mexe, 0, K, rng.randint(1, 1 << 30), arena_mb, True, extra)))
+
+    # ---- R3: reuse fuzzer on real contexts (direct oracles); the default build with the index moved next to ZSTD_CURRENT_MAX
+    for rep in range(1 if ctx.quick else 4):
+        futs.append(("fuzz", pool.submit(fuzz_job, fexe[0], 0, rng.randint(1, 1 << 30), 6 if ctx.quick else 30, 1)))
+        futs.append(("fuzz", pool.submit(fuzz_job, fexe[1], 1, rng.randint(1, 1 << 30), 6 if ctx.quick else 30, 0)))
 
     # ---- finding probe: the LDM window on blocks below 7 bytes (quick: with the warp device; thorough: also pure API)
     futs.append(("ldmprobe", pool.submit(ldm_probe_job, xexe[0], 0, 2000, 8, U32 - 3000)))
@@ -1265,6 +1287,19 @@ def run(ctx):
                                  "ZSTDMT_serialState_reset with a raw-content prefix of %d bytes: the 32-bit index of serial.ldmState.window wrapped (LW=%s)" % (c[0], lw)))
             for c, mod, real in r["mism"][:2]:
                 problems.append(("zstdmt serial LDM load tie", 0, dict(arena_mb=8, cmds=r["cmds"], case=str(c), model=str(mod), real=str(real)), None))
+            continue
+        if kind == "fuzz":
+            ctx.count(("fuzz", r["freq"], r["warp"], len(r["fails"]) == 0), n=r["nscen"] * r["nframes"])
+            ctx.notes.setdefault("reuse_fuzzer", []).append(dict(frequently=r["freq"], seed=r["seed"], scenarios=r["nscen"], frames_per_scenario=r["nframes"],
+                                                                 warp=r["warp"], failures=len(r["fails"]), rc=r["rc"], wall_s=round(r["wall"], 1)))
+            for fl, fr in r["fails"][:2]:
+                m_ = re.search(r"scen=(\d+)", fl)
+                sc_ = int(m_.group(1)) if m_ else r["first"]
+                problems.append(("reuse fuzzer", r["freq"], dict(harness="c15_explore", args=[r["seed"], 1, r["warp"], 1, r["nframes"], sc_], fail=fl, frame=fr),
+                                 "reuse fuzzer (c15_explore %d 1 %d 1 %d %d): %s | %s" % (r["seed"], r["warp"], r["nframes"], sc_, fl, fr[:200])))
+            if not r["done"] and not r["fails"]:
+                problems.append(("reuse fuzzer", r["freq"], dict(harness="c15_explore", args=[r["seed"], r["nscen"], r["warp"], 1, r["nframes"], r["first"]], rc=r["rc"], err=r["err"]),
+                                 "reuse fuzzer died: c15_explore %d %d %d 1 %d %d -> rc=%d %s" % (r["seed"], r["nscen"], r["warp"], r["nframes"], r["first"], r["rc"], r["err"][-120:])))
             continue
         if kind == "bigprefix":
             ctx.count(("bigprefix", r["nbw"], r["prefix_mib"], r["ldm"], r["ok"]))
@@ -1405,6 +1440,17 @@ def replay(ctx, K):
             ctx.violation(rp, what="replay: " + f[1], key=f[2])
         if rc != 0 and not fails:
             ctx.violation(rp, what="replay: harness rc=%d" % rc, key=det.get("key"))
+        return
+    if det.get("harness") == "c15_explore":
+        exe = core.build_harness("c15_explore", ["c15_explore.c"], variant=var, extra_flags=["-w"])
+        a = det["args"]
+        r = fuzz_job(exe, freq, a[0], a[1], a[2], first=a[5], nframes=a[4])
+        ctx.count(("replay", "fuzz"), n=max(1, a[1] * a[4]))
+        ctx.sample(dict(replayed_fuzz_args=a, failures=[f[0][:200] for f in r["fails"][:3]], rc=r["rc"]))
+        if r["fails"]:
+            ctx.violation(rp, what="replay: reuse fuzzer: %s | %s" % (r["fails"][0][0], r["fails"][0][1][:200]))
+        elif not r["done"]:
+            ctx.violation(rp, what="replay: reuse fuzzer died rc=%d %s" % (r["rc"], r["err"][-120:]))
         return
     lines = None
     if "history_prefix" in det:
